@@ -128,6 +128,33 @@ def handler : Handler := fun op args =>
       let cols ← nat; let lines ← nat; let ts ← listOf pTokX
       pure (fmtExcept strHex ((checkFormatting h w v ht tw th).map fun (ha, wd, va, hg) =>
         formatRender ha wd va hg cols lines ts))) args
+  | "draw" => run (do
+      let h ← pPyArg; let w ← optOf int; let v ← pPyArg; let ht ← optOf int; let tw ← nat; let th ← nat
+      let cols ← nat; let lines ← nat; let ts ← listOf pTokX
+      pure (fmtExcept strHex (drawOutput h w v ht tw th cols lines ts))) args
+  | "iter" => run (do
+      let h ← pPyArg; let w ← optOf int; let v ← pPyArg; let ht ← optOf int; let tw ← nat; let th ← nat
+      let cw ← word
+      let c ← (if cw == "b0" then pure (CachedArg.bool false) else if cw == "b1" then pure (CachedArg.bool true)
+        else if cw.startsWith "c" then (match (cw.drop 1).toString.toNat? with
+          | some n => pure (CachedArg.count n)
+          | none => failure) else failure : P CachedArg)
+      let rep ← int; let nFrames ← nat
+      let steps ← listOf (do let cols ← nat; let lines ← nat; let ts ← listOf pTokX; pure (⟨cols, lines, ts⟩ : IterStep))
+      pure (fmtExcept (fun (fs : List (Option (List Tok))) =>
+          String.intercalate "|" (fs.map fun | none => "stop" | some fr => strHex fr))
+        ((checkFormatting h w v ht tw th).map fun (ha, wd, va, hg) =>
+          iterFrames ⟨ha, wd, va, hg⟩ rep c nFrames steps))) args
+  | "adraw" => run (do
+      let h ← pPyArg; let w ← optOf int; let v ← pPyArg; let ht ← optOf int; let tw ← nat; let th ← nat
+      let cw ← word
+      let c ← (if cw == "b0" then pure (CachedArg.bool false) else if cw == "b1" then pure (CachedArg.bool true)
+        else if cw.startsWith "c" then (match (cw.drop 1).toString.toNat? with
+          | some n => pure (CachedArg.count n)
+          | none => failure) else failure : P CachedArg)
+      let rep ← int; let nFrames ← nat
+      let steps ← listOf (do let cols ← nat; let lines ← nat; let ts ← listOf pTokX; pure (⟨cols, lines, ts⟩ : IterStep))
+      pure (fmtExcept strHex (drawAnimatedOutput h w v ht tw th rep c nFrames steps))) args
   | _ => TermDrive.handler op args
 
 end TIV.C05
